@@ -871,5 +871,169 @@ theorem callsP_fnFree (env : Env) : ∀ (p : P), fnFreeP p = true → ∀ root m
     exact flatMap_nil' (fun m => calls_fnFree env ch h root m)
 end
 
+theorem flatMap_congr'' {α β : Type} {l : List α} {f g : α → List β} (h : ∀ x, f x = g x) :
+    l.flatMap f = l.flatMap g := by
+  have : f = g := funext h
+  rw [this]
+
+/-- behind a function-free prefix, the calls are those of the suffix on every value the prefix
+    selects, in result order -/
+theorem calls_append (env : Env) (fns : List N) : ∀ (pre : List N), fnFree pre = true → ∀ (root cur : Val),
+    calls env (pre ++ fns) root cur = (den env pre root cur).flatMap (fun v => calls env fns root v)
+  | [], _, root, cur => by simp [den]
+  | n :: rest, h, root, cur => by
+    simp only [fnFree, Bool.and_eq_true] at h
+    obtain ⟨hn, hr⟩ := h
+    have ih := calls_append env fns rest hr
+    cases n with
+    | root i => simp only [List.cons_append, calls, den]; exact ih _ _
+    | cur i => simp only [List.cons_append, calls, den]; exact ih _ _
+    | child i k =>
+      cases cur <;> simp only [List.cons_append, calls, den, List.flatMap_nil, ih]
+      generalize Val.lookup k _ = o
+      cases o <;> rfl
+    | wild i =>
+      cases cur <;> simp only [List.cons_append, calls, den, List.flatMap_nil, List.flatMap_assoc, ih]
+    | multi i ids t =>
+      cases t <;> cases cur <;> simp only [List.cons_append, calls, den, List.flatMap_nil, List.flatMap_assoc, ih]
+      all_goals apply flatMap_congr''
+      all_goals intro id
+      all_goals
+        (cases id with
+         | key _ k =>
+           simp only []
+           generalize Val.lookup k _ = o
+           cases o <;> rfl
+         | wild _ => simp only [List.flatMap_assoc])
+    | desc i a b => simp only [List.cons_append, calls, den, List.flatMap_assoc, ih]
+    | union i subs =>
+      cases cur <;> simp only [List.cons_append, calls, den, List.flatMap_nil, List.flatMap_assoc, ih]
+      apply flatMap_congr''
+      intro s
+      apply flatMap_congr''
+      intro ix
+      generalize (if ix < 0 then none else _) = o
+      cases o <;> rfl
+    | filter i q =>
+      simp only [fnFreeN] at hn
+      simp only [List.cons_append, calls, den, List.flatMap_assoc]
+      split
+      · rw [callsQ_fnFree env q hn]
+        simp only [List.nil_append, ih]
+      · rename_i hc
+        have : entries cur = [] := by
+          cases cur <;> simp [Val.isContainer] at hc <;> rfl
+        rw [this]
+        simp [keepBy]
+    | ffn i name => simp [fnFreeN] at hn
+    | afn i name param => simp [fnFreeN] at hn
+
+/-! ### support for the C14 corollaries -/
+
+theorem flatMap_opt {α β : Type} (f : α → Option β) : ∀ (l : List α),
+    l.flatMap (fun v => match f v with | some r => [r] | none => []) = l.filterMap f
+  | [] => rfl
+  | a :: l => by
+    rw [List.flatMap_cons, flatMap_opt f l, List.filterMap_cons]
+    cases f a <;> rfl
+
+theorem flatMap_single {α β : Type} (f : α → β) (l : List α) : l.flatMap (fun v => [f v]) = l.map f := by
+  induction l with
+  | nil => rfl
+  | cons a l ih => simp [List.flatMap_cons, ih]
+
+theorem den_ffn_one (env : Env) (i : Info) (name : String) (f : Val → Option Val) (hf : env.ffn name = some f)
+    (rest : List N) (root v : Val) :
+    den env (.ffn i name :: rest) root v = (match f v with | some r => den env rest root r | none => []) := by
+  simp only [den, hf]
+  cases f v <;> rfl
+
+theorem calls_ffn_one (env : Env) (i : Info) (name : String) (f : Val → Option Val) (hf : env.ffn name = some f)
+    (rest : List N) (root v : Val) :
+    calls env (.ffn i name :: rest) root v =
+      Call.ffn name v :: (match f v with | some r => calls env rest root r | none => []) := by
+  simp only [calls, hf]
+  cases f v <;> rfl
+
+/-- what `run` returns, in terms of the denotation (a restatement of `run_refines`) -/
+theorem run_outcome (env : Env) (ch : List N) (hwf : wfChain env ch = true) (d : Val) :
+    (∃ rs, (Impl.run env ch d).1 = .ok rs ∧ rs.map Res.val = den env ch d d ∧ rs ≠ []) ∨
+    (∃ e, (Impl.run env ch d).1 = .err e ∧ den env ch d d = []) := by
+  rcases run_refines env ch hwf d with ⟨rs, st, h1, h2, h3, _⟩ | ⟨e, st, h1, h2, _⟩
+  · exact Or.inl ⟨rs, by rw [h1], h2, h3⟩
+  · exact Or.inr ⟨e, by rw [h1], h2⟩
+
+theorem wfChain_append (env : Env) : ∀ (a b : List N), wfChain env (a ++ b) = (wfChain env a && wfChain env b)
+  | [], b => by simp [wfChain]
+  | n :: a, b => by simp [wfChain, wfChain_append env a b, Bool.and_assoc]
+
+theorem den_ffn_last (env : Env) (i : Info) (name : String) (f : Val → Option Val) (hf : env.ffn name = some f)
+    (root v : Val) : den env [.ffn i name] root v = (match f v with | some r => [r] | none => []) := by
+  rw [den_ffn_one env i name f hf]
+  cases f v <;> simp [den]
+
+theorem calls_ffn_last (env : Env) (i : Info) (name : String) (f : Val → Option Val) (hf : env.ffn name = some f)
+    (root v : Val) : calls env [.ffn i name] root v = [Call.ffn name v] := by
+  rw [calls_ffn_one env i name f hf]
+  cases f v <;> simp [calls]
+
+theorem run_single (env : Env) (ch : List N) (hwf : wfChain env ch = true) (d r : Val)
+    (h : den env ch d d = [r]) : ∃ x, (Impl.run env ch d).1 = .ok [x] ∧ x.val = r := by
+  rcases run_outcome env ch hwf d with ⟨rs, h1, h2, _⟩ | ⟨e, _, h2⟩
+  · rw [h] at h2
+    match rs, h2 with
+    | [x], h2 => exact ⟨x, h1, by simpa using h2⟩
+  · rw [h] at h2
+    simp at h2
+
+theorem run_none (env : Env) (ch : List N) (hwf : wfChain env ch = true) (d : Val)
+    (h : den env ch d d = []) : ∃ e, (Impl.run env ch d).1 = .err e := by
+  rcases run_outcome env ch hwf d with ⟨rs, _, h2, h3⟩ | ⟨e, h1, _⟩
+  · rw [h] at h2
+    simp at h2
+    exact absurd h2 h3
+  · exact ⟨e, h1⟩
+
+/-- an aggregate function that fails on a non-empty selection: the error names its own node -/
+theorem retrieve_afn_fail {env : Env} {rest param : List N} (i : Info) (name : String)
+    (f : List Val → Option Val) (hf : env.afn name = some f) (hp : RetrieveOK env param)
+    (prev : Info) (root cur : Val) (aloc : Option Loc) (st : St) (r0 : Val) (rs : List Val)
+    (hden : den env param root cur = r0 :: rs)
+    (hfail : f (aggArgs (chainVg param) r0 (r0 :: rs)) = none) :
+    ∃ st', retrieve env (.afn i name param :: rest) prev root cur aloc st = .ok (st', some (.func i)) := by
+  obtain ⟨s1, e1, hp1, hp2⟩ := hp i root cur aloc st.sub
+  have hvals := sub_out_vals st s1 _ hp2.ext
+  have he1 : e1 = none := hp2.sel_ok (by simp [hden])
+  subst he1
+  cases hout : s1.out with
+  | nil => exact absurd hout (hp2.ok_nonempty rfl)
+  | cons x xs =>
+    rw [hout, hden] at hvals
+    simp only [List.map_cons, List.cons.injEq] at hvals
+    have hargs : aggArgs (chainVg param) x.val (x.val :: List.map Res.val xs) = aggArgs (chainVg param) r0 (r0 :: rs) := by
+      rw [hvals.1, hvals.2]
+    simp only [retrieve, hp1, bind, Except.bind, hout, hf, List.map_cons, hargs, hfail]
+    exact ⟨_, rfl⟩
+
+theorem ffnArgs_chain_left (fname gname : String) (hne : fname ≠ gname) (ff : Val → Option Val) : ∀ (L : List Val),
+    ffnArgs fname (L.flatMap (fun v => Call.ffn fname v ::
+      (match ff v with | some r => [Call.ffn gname r] | none => []))) = L
+  | [] => rfl
+  | v :: L => by
+    have ih := ffnArgs_chain_left fname gname hne ff L
+    unfold ffnArgs at ih ⊢
+    rw [List.flatMap_cons, List.filterMap_append, ih]
+    cases ff v <;> simp [Ne.symm hne]
+
+theorem ffnArgs_chain_right (fname gname : String) (hne : fname ≠ gname) (ff : Val → Option Val) : ∀ (L : List Val),
+    ffnArgs gname (L.flatMap (fun v => Call.ffn fname v ::
+      (match ff v with | some r => [Call.ffn gname r] | none => []))) = L.filterMap ff
+  | [] => rfl
+  | v :: L => by
+    have ih := ffnArgs_chain_right fname gname hne ff L
+    unfold ffnArgs at ih ⊢
+    rw [List.flatMap_cons, List.filterMap_append, ih]
+    cases hv : ff v <;> simp [hne, hv]
+
 end CL
 end JPV
